@@ -358,9 +358,9 @@ class SGen(coregen.Gen):
         return super().simple_t(t, d, dict(ctx, in_tuple=True))
 
     def ifexpr(self, t, d, ctx):
-        """known finding F3 (stateful constructs in both arms of an `if`): argument code may be stateful, so inside a
-        template the holes are not used in `if` arms (they are in conditions)"""
-        if ctx.get("holes") and self.p.get("avoid_f3", True):
+        """finding F3 (stateful constructs in the arms of an `if`) is repaired: holes (possibly stateful argument code) are
+        used in `if` arms like anywhere else; the knob `avoid_f3` (default off) keeps them to the conditions"""
+        if ctx.get("holes") and self.p.get("avoid_f3", False):
             actx = dict(ctx, allow_state=False, in_arm=True, vars=[v for v in ctx["vars"] if v[0] not in ctx["holes"]], holes=None)
             then, els = self.block(t, d, actx), self.block(t, d, actx)
             if self.p.get("avoid_f20", False) and t == F:
